@@ -94,6 +94,7 @@ SetClauses(e, o) ==
       <<"C01", "NoStale", AdmNoStale(device, o.d, E2, I2, orph)>>,
       <<"C01", "Untouched", AdmUntouched(device, o.d, E2)>>,
       <<"C08", "OneCase", AdmOneCase(o.d, I2)>>,
+      <<"C08", "WinningCaseApplied", \A x \in EffLeaves(I2) : ChoiceOf(x) # NoChoice => Get(o.d, x) = Eff(I2)[x]>>,
       <<"C02", "IntendedExact", o.I = I2>>,
       <<"C06", "ArmedAfterSet", o.open = [id |-> e.id, armed |-> TRUE]>>,
       <<"C09", "NoopSendsNothing", verbatim => (\A i \in 1..Len(e.sets) : EmptyChange(e.sets[i]))>>,
